@@ -342,7 +342,18 @@ where
     ck.mat("SpMat::from_col_vecs", &args, || sp_r(&a), &d);
     ck.val("SpMat::shape", &args, || (a.shape(), a.nrows(), a.ncols(), a.is_square()), ((m, n), m, n, m == n));
     ck.val("SpMat::is_zero", &args, || a.is_zero(), d.is_zero());
-    ck.val("SpMat::is_id", &args, || a.is_id(), d.is_id());
+    {
+        // (failures of the kind "true although a diagonal position is not stored" share one key per
+        // size, so that they cannot crowd out other findings)
+        let unstored_diag = m == n && (0..n).any(|i| o.at(i, i).is_none());
+        let key = || if unstored_diag && !d.is_id() { format!("{m}x{n}:true-with-diagonal-position-not-stored") } else { o.show() };
+        ck.evals.set(ck.evals.get() + 1);
+        match catch(|| a.is_id()) {
+            Ok(g) if g == d.is_id() => {}
+            Ok(g) => ck.fail("SpMat::is_id", &key(), format!("is_id() = {g} for {} (the matrix {} the identity)", o.show(), if d.is_id() { "is" } else { "is not" })),
+            Err(p) => ck.fail("SpMat::is_id", &key(), format!("panicked: {p}")),
+        }
+    }
     for (t, name, upper) in [(TriangularType::Upper, "SpMat::is_triang(Upper)", true), (TriangularType::Lower, "SpMat::is_triang(Lower)", false)] {
         let exp = m == n && (0..m).all(|i| (0..n).all(|j| d.at(i, j).is_zero() || if upper { i <= j } else { i >= j }));
         ck.val(name, &args, || a.is_triang(t), exp);
